@@ -8,6 +8,7 @@ pub mod c16;
 pub mod c17;
 pub mod c18;
 pub mod c19;
+pub mod c20;
 
 pub fn by_id(id: &str) -> Option<Box<dyn Monitor>> {
     Some(match id {
@@ -17,6 +18,7 @@ pub fn by_id(id: &str) -> Option<Box<dyn Monitor>> {
         "C14" => Box::new(c14::C14),
         "C17" => Box::new(c17::C17),
         "C18" => Box::new(c18::C18::new()),
+        "C20" => Box::new(c20::C20),
         "C19" => Box::new(c19::C19),
         "C16" => Box::new(c16::C16),
         _ => return None,
